@@ -124,8 +124,9 @@ class CleanPass(FunctionPass):
         for instruction in block2:
             block1.add_instruction(instruction)
 
-        # Replace incoming info:
-        for successor in block2.successors:
+        # Replace incoming info (once per successor, a conditional jump may
+        # have the same block as both of its targets):
+        for successor in dict.fromkeys(block2.successors):
             successor.replace_incoming(block2, [block1])
 
         # Remove block from function:
